@@ -84,6 +84,13 @@ def cases(tier):
         yield Case("ladder:N=%d" % N, {"kind": "ladder", "N": N})
     # the zero-frequency clause alone is cheap, so it is decided for EVERY even N up to a much larger bound
     top = 512 if tier == "quick" else 1536
+    # the sub-harmonic part for grid sizes far beyond those whose full operator is extracted
+    for N in ((130, 160, 256) if tier == "quick" else (130, 160, 192, 200, 256, 300, 384, 500)):
+        yield Case("shbig:N=%d" % N, {"kind": "shbig", "N": N})
+    # more plain-screen sizes (full operator): sizes with a large prime factor (26 = 2*13, 34 = 2*17)
+    for N in ((26, 34) if tier == "quick" else (26, 34, 38, 46)):
+        t = TUPLES[0]
+        yield Case("ft:N=%d:%s" % (N, "d=%g,r0=%g,L0=%g,l0=%g" % t), {"kind": "ft", "N": N, "t": t, "plain_only": True})
     for lo in range(2, top + 1, 32):
         yield Case("dc:N=%d-%d" % (lo, min(lo + 30, top)), {"kind": "dc", "lo": lo, "hi": min(lo + 30, top)})
 
@@ -145,6 +152,8 @@ def evaluate(p):
         return _ladder_case(o, ps, p["N"])
     if p["kind"] == "dc":
         return _dc_case(o, ps, p["lo"], p["hi"])
+    if p["kind"] == "shbig":
+        return _shbig_case(o, ps, p["N"])
     N, t = p["N"], p["t"]
     delta, r0, L0, l0 = t
     n2 = N * N
@@ -310,20 +319,25 @@ def _dc_case(o, ps, lo, hi):
     spatial mean; a unit draw on the neighbouring coefficient does contribute (the probe is not vacuous).
     (Added after a seeded change left the DC term in for N = 98, 196, 206, ... only.)"""
     from mc.env import SeqGenerator
-    delta, r0, L0, l0 = 0.1, 0.2, 25.0, 0.01
+    r0, L0, l0 = 0.2, 25.0, 0.01
     for N in range(lo, hi + 1, 2):
         c = N // 2
         n2 = N * N
+        for delta in (0.1, 0.3, 0.02, 1.0, 4.2 / 128):       # the frequency grid is a function of N and delta
+
+            def screen(vec, delta=delta):
+                return numpy.asarray(ps.ft_phase_screen(r0, N, delta, L0, l0, seed=SeqGenerator(vec)))
+            for part, off in (("re", 0), ("im", n2)):
+                v = numpy.zeros(2 * n2)
+                v[off + c * N + c] = 1.0
+                s = screen(v)
+                o.stat("lib_calls", 1)
+                o.check("zero_frequency_draw_contributes_nothing", s.shape == (N, N) and bool(numpy.all(s == 0.0)),
+                        sub="N=%d:delta=%g:%s" % (N, delta, part), measure=_maxabs(s), tol=0.0)
+        delta = 0.1
 
         def screen(vec):
             return numpy.asarray(ps.ft_phase_screen(r0, N, delta, L0, l0, seed=SeqGenerator(vec)))
-        for part, off in (("re", 0), ("im", n2)):
-            v = numpy.zeros(2 * n2)
-            v[off + c * N + c] = 1.0
-            s = screen(v)
-            o.stat("lib_calls", 1)
-            o.check("zero_frequency_draw_contributes_nothing", s.shape == (N, N) and bool(numpy.all(s == 0.0)),
-                    sub="N=%d:%s" % (N, part), measure=_maxabs(s), tol=0.0)
         v = numpy.zeros(2 * n2)
         v[c * N + (c + 1) % N] = 1.0
         s1 = screen(v)
@@ -334,4 +348,46 @@ def _dc_case(o, ps, lo, hi):
         scale = max(_maxabs(dense), 1e-300)
         o.close("dense_screen_has_zero_mean", abs(float(dense.mean())) / scale, 1e-10, sub="N=%d" % N)
     o.stat("nontrivial", (hi - lo) // 2 + 1)
+    return o
+
+
+def _shbig_case(o, ps, N):
+    """Sub-harmonic part on large grids: with all high-frequency draws zero and ONE unit draw on a sub-harmonic
+    coefficient, the screen is that coefficient's plane wave minus its mean, on EVERY row and column:
+        Re[c exp(2 pi i (fx x + fy y))] - mean,  c = (1 or i) sqrt(PSD(f)) del_f,  del_f = 1/(3^p N delta),
+        (fx, fy) = (j-1, i-1) del_f,  x, y = (k - N/2) delta.
+    All 3 levels x 8 coefficients x (re, im) are probed.  (Added after a seeded change accumulated the
+    sub-harmonics in blocks of 128 rows and dropped the remainder rows for N > 128.)"""
+    from mc.env import SeqGenerator
+    delta, r0, L0, l0 = 0.05, 0.2, 40.0, 0.01
+    n2 = N * N
+    coords = (numpy.arange(N) - N / 2.0) * delta
+    x, y = numpy.meshgrid(coords, coords)
+    fm = 5.92 / l0 / (2 * numpy.pi)
+    worst = 0.0
+    for p_ in (1, 2, 3):
+        del_f = 1.0 / (3 ** p_ * N * delta)
+        for i in range(3):
+            for j in range(3):
+                if i == 1 and j == 1:
+                    continue
+                fx, fy = (j - 1) * del_f, (i - 1) * del_f
+                f = numpy.hypot(fx, fy)
+                psd_ = 0.023 * r0 ** (-5.0 / 3) * numpy.exp(-(f / fm) ** 2) / (f ** 2 + (1.0 / L0) ** 2) ** (11.0 / 6)
+                for part, c in (("re", 1.0), ("im", 1j)):
+                    vec = numpy.zeros(2 * n2 + 54)
+                    vec[2 * n2 + 18 * (p_ - 1) + (0 if part == "re" else 9) + 3 * i + j] = 1.0
+                    got = numpy.asarray(ps.ft_sh_phase_screen(r0, N, delta, L0, l0, seed=SeqGenerator(vec)))
+                    o.stat("lib_calls", 1)
+                    want = numpy.real(c * numpy.sqrt(psd_) * del_f * numpy.exp(2j * numpy.pi * (fx * x + fy * y)))
+                    want = want - want.mean()
+                    scale = float(numpy.max(numpy.abs(want)))
+                    err = float(numpy.max(numpy.abs(got - want))) / scale if got.shape == want.shape else float("inf")
+                    worst = max(worst, err)
+                    if not err <= 1e-9:
+                        rows = numpy.where(numpy.max(numpy.abs(got - want), axis=1) > 1e-9 * scale)[0] if got.shape == want.shape else []
+                        o.check("subharmonic_plane_wave_on_every_row", False, sub="p=%d:coef=%d%d:%s" % (p_, i, j, part),
+                                measure=err, tol=1e-9, detail={"rows_off": [int(r) for r in rows[:6]], "n_rows_off": int(len(rows))})
+    o.check("subharmonic_plane_wave_on_every_row", worst <= 1e-9, measure=worst, tol=1e-9, n=48) if worst <= 1e-9 else None
+    o.stat("nontrivial", 1)
     return o
